@@ -37,6 +37,7 @@ type Explorer struct {
 	fbTimeout             int
 	fbCalls, fbCvc5, fbZ3 int
 	recycled, revived     int
+	fbBad                 int
 	workers               int
 	maxPaths              int
 	deadline              time.Time
@@ -221,6 +222,7 @@ func (ex *Explorer) Run() {
 				ex.sstats.Time += s.stats.Time
 				ex.fbCalls += s.fbStats.Calls
 				ex.recycled += s.recycled
+				ex.fbBad += s.fbStats.BadModels
 				ex.revived += s.revived
 				ex.fbCvc5 += s.fbStats.ByCvc5Int
 				ex.fbZ3 += s.fbStats.ByZ3
